@@ -7,7 +7,7 @@
 (* driver that runs the real tool on it.                                    *)
 (***************************************************************************)
 EXTENDS Expect, Json, IOUtils
-CONSTANTS MaxOuts, MaxLines, TwoSteps, Export
+CONSTANTS MaxOuts, MaxLines, TwoSteps, Timeouts, Export
 
 LA == Obj([k \in {"a"} |-> Num(2)])
 LB == Obj([k \in {"b"} |-> Num(2)])
@@ -18,15 +18,27 @@ Lines == {LA, LB, LC, LD, Noise}
 PA == Obj([k \in {"a"} |-> Num(2)])
 PB == Obj([k \in {"b"} |-> Num(2)])
 PC == Obj([k \in {"c"} |-> <<"var", "plain", "?x", "?x", "">>])
+\* needs two properties: no single one of the lines LA, LB has both (only LC does)
+PAB == Obj([k \in {"a", "b"} |-> Num(2)])
 Accept == <<"ops", <<>> >>
 Reject == <<"ops", << <<"retnull">> >> >>
-Outs == [pat : {PA, PB, PC}, guard : {NoOps, Accept, Reject}, inv : BOOLEAN]
+Outs == [pat : {PA, PB, PC, PAB}, guard : {NoOps, Accept, Reject}, inv : BOOLEAN]
 
 SeqsUpTo(n, S) == UNION {[1..k -> S] : k \in 0..n}
 Step1 == [lines : SeqsUpTo(MaxLines, Lines), outs : SeqsUpTo(MaxOuts, Outs)]
 Sessions == {<<s>> : s \in Step1} \cup
             (IF TwoSteps THEN {<<s, t>> : s \in [lines : SeqsUpTo(2, Lines), outs : SeqsUpTo(1, Outs)],
                                           t \in [lines : SeqsUpTo(2, Lines), outs : SeqsUpTo(1, Outs)]}
+             ELSE {})
+            \cup
+            \* timing: a first step with or without its own long timeout, a last step that waits for the default timeout
+            \* and whose last line may arrive too late for it
+            (IF Timeouts THEN
+               LET O2 == [pat : {PA, PB}, guard : {NoOps}, inv : BOOLEAN]
+                   SlowL == {<<"slow", LA>>, <<"slow", LB>>}
+               IN {<<a, b>> : a \in [lines : SeqsUpTo(1, {LA}), outs : SeqsUpTo(1, {o \in O2 : o.pat = PA}), long : BOOLEAN],
+                              b \in {[lines |-> f \o sl, outs |-> os, long |-> FALSE] :
+                                       f \in SeqsUpTo(1, {LA, LB}), sl \in SeqsUpTo(1, SlowL), os \in SeqsUpTo(2, O2)}}
              ELSE {})
 
 VARIABLE s
